@@ -243,11 +243,47 @@ def signal_in_dynamics(kind, method):
             nlp.prove_equal(inst + "|single_shooting:SingleShooting.add_constraints:ensures:state-with-signal[%d]" % k, meth.X[k], X[k])
 
 
+def signal_derivative_chain(d, N, kind):
+    """BSplineSignal.get_der (the object behind der() of a grid='bspline' signal): the derivative signal has the analytic
+    derivative coefficients PER UNIT PHYSICAL TIME (divided by the horizon T), one degree less, the same knots and the
+    same horizon -- so that the contract applies again to every further derivative (nu-th derivative: 1/T^nu)."""
+    from rockit.sampling_method import BSplineSignal
+    c = ctx()
+    from .backend import MODEL
+    xi = dict(knot_sets(N))[kind]
+    X = ca.DM([xi]) if MODEL else ca.DM([[float(x) for x in xi]])
+    T = unknown("horizon_T", positive=True)
+    C = ca.MX.sym("c", 2, N + d)
+    sig = BSplineSignal(C, X, d, T=T)
+    K = clamped(xi, d)
+    cur, coeff, deg = sig, C, d
+    for nu in range(1, d + 1):
+        name = "sampling_method:BSplineSignal.get_der:ensures[d=%d,N=%d,%s,derivative %d]" % (d, N, kind, nu)
+        try:
+            nxt = cur.get_der()
+        except Exception as e:
+            c.fail(name + ":no-exception", "%s: %s" % (type(e).__name__, str(e)[:120]))
+            return
+        Kd = clamped(xi, deg)
+        fac = lambda i: Fr(deg) / (Kd[i + deg + 1] - Kd[i + 1])
+        want = ca.hcat([(coeff[:, i + 1] - coeff[:, i]) * (fac(i) if MODEL else float(fac(i))) for i in range(coeff.shape[1] - 1)]) / ca.MX(T)
+        nlp.prove_equal(name + ":coefficients-are-the-analytic-derivative-per-unit-physical-time", nxt.coeff, want)
+        c.prove(name + ":one-degree-less", nxt.degree == deg - 1)
+        nlp.prove_equal(name + ":same-horizon", ca.MX(nxt.T), ca.MX(T))
+        nlp.prove_equal(name + ":same-knots", ca.DM(nxt.xi), X)
+        cur, coeff, deg = nxt, want, deg - 1
+
+
 _tasks1 = tasks
 
 
 def tasks(tier):
     out = _tasks1(tier)
+    for d in (1, 2, 3, 4):
+        for N, kname in ((2, "uniform"), (3, "geometric")):
+            inst = "C17/derivative-chain[d=%d,N=%d,%s]" % (d, N, kname)
+            out.append(Task(inst, guarded(lambda d=d, N=N, kname=kname: signal_derivative_chain(d, N, kname), inst), kind="bounded", bound=dict(order=d, N=N, knots=kname, T="symbolic"),
+                            replay=dict(harness="task_probe", module="contracts.c17", task=inst, tier=tier)))
     for kind in ("variable", "parameter"):
         for m in ("MS", "SS"):
             inst = "C17/signal-in-dynamics[%s,%s]" % (kind, m)
